@@ -338,7 +338,8 @@ def explore(chk, program, tier, rules, q):
                 n_runs += 1
                 cutd = '+'.join(map(str, cut)) if len(cut) <= 6 else f"{cut[0]}x{len(cut)}"
                 if r.get('spins'):
-                    report('SCAN-PROGRESS', inst0, False, 'every call of _receive_impl returns', f"reads {cutd}: {r['spins']}", 'the scan loop stops consuming bytes: the event loop is starved')
+                    report('SCAN-PROGRESS' if 'SCAN-PROGRESS' in rules else 'SER-DELIVER', inst0, False, 'every call of _receive_impl returns', f"reads {cutd}: {r['spins']}",
+                           'the scan loop stops consuming bytes: nothing after that point is ever delivered and the event loop is starved')
                     continue
                 if r['problem']:
                     report('SER-DELIVER', inst0, False, 'noise and damaged packets are skipped, not raised', f"reads {cutd}: {r['problem']}")
